@@ -10,10 +10,10 @@
     * `parseAuto`      — the meaning of an initialiser string made of `0x… / 0o… / 0b…` literals
       separated by commas (what `Bits(<str>)` builds);  `parseRepr` — `eval` of the text of `repr`;
     * `groupsOf`       — the groups of `bpg` bits a value is made of (from the left in msb0, from the right in lsb0).
-  ALG layer (function by function, bitstring/bits.py at /repo c59055f unless another file is named)
+  ALG layer (function by function, bitstring/bits.py at /repo 19a4a37 unless another file is named)
     * `strFormAlg lsb0 l`  — `Bits.__str__` (259-283) with the slices it really takes (`_absolute_slice`: msb0 under either option);
     * `reprFormAlg`        — `Bits._repr` (285-294), `Bits.__repr__` (296-302), `ConstBitStream.__repr__` (bitstream.py:197-203);
-      `reprFileAlg`        — the `_filename` branch of `_repr` (287-288; `_setfile` 560-590 sets `_filename` at 573);
+      `reprFileAlg`, `reprFileObj` — the `_filename` branch of `_repr` (287-289, taken only for an immutable store; `_setfile` 561-591);
     * `cut`                — `Bits.cut` (1422-1449) through `_slice` → `BitStore.getslice` (msb0 / lsb0);
     * `mkDtype`, `processTokens` — `Dtype(name, length)` for bin/oct/hex (dtypes.py `get_dtype` 323-341, allowed lengths
       `(0, 4, 8, ...)`, `(0, 3, 6, ...)`) and `Bits._process_pp_tokens` (1738-1771);
@@ -22,7 +22,7 @@
     * `formatBits`         — `Bits._format_bits` (1627-1653);
     * `maxBitsPerLine`, `ppLoop`, `ppLines` — `Bits._pp` (1669-1736);   `pp` — `Bits.pp` (1773-1812);
     * `ink`                — bitstring_options.py `Colour.__new__` (89-99);
-    * `arrayRepr`          — `Array.__repr__` (array_.py:267-272) for uint / int / bin / oct / hex / bool items.
+    * `arrayRepr`          — `Array.__repr__` (array_.py:267-279) for uint / int / bin / oct / hex / bool items.
   GENERATED: `Gen.maxChars` (= `MAX_CHARS`), `Gen.ppDefaultBin/Hex/Oct`, and the graphs `Gen.*Bits2chars`
   (tied to `Fmt.b2c` by the obligations in Props/C19.lean).
 -/
@@ -193,9 +193,8 @@ def applyMut (m : FileMut) (file : Bits) : Bits :=
   | .del8 => file.drop 8
   | .overwrite8 => List.replicate (min 8 file.length) true ++ file.drop 8
 
-/-- ALG: `Bits._repr` for an object whose `_filename` is set (bits.py:287-288; `_setfile` sets it when the offset
-    is 0, bits.py:573, and nothing ever clears it): the file name and the *current* length and pos, whatever
-    happened to the content since.  `fname` is the quoted path as `{self._filename!r}` prints it. -/
+/-- The `_filename` branch of `Bits._repr` (bits.py:287-289; `_setfile` sets `_filename` when the offset is 0,
+    bits.py:574): the file name and the current length and pos.  `fname` is the quoted path as `{self._filename!r}` prints it. -/
 def reprFileAlg (cls : Cls) (fname : Str) (len pos : Nat) : Str :=
   let posString : Str := if pos ≠ 0 then posEq ++ natDec pos else []
   Cls.nameStr cls ++ ['(', 'f', 'i', 'l', 'e', 'n', 'a', 'm', 'e', '='] ++ fname ++
@@ -206,8 +205,14 @@ def reprFileAlg (cls : Cls) (fname : Str) (len pos : Nat) : Str :=
 def evalFileRepr (file : Bits) (n : Nat) : Except Err Bits :=
   if n > file.length then .error .value else .ok (file.take n)
 
-/-- Region of the known finding `file-repr-after-mutation` (same name in `REGIONS` of harness/props/C19.py). -/
-def file_repr_after_mutation (m : FileMut) : Bool := m != .none
+/-- ALG: `repr` of an object created as `cls(filename=f)` (offset 0) and then changed by `m` (`_repr`, bits.py:285-295):
+    the file is named only while `self._bitstore.immutable`, i.e. for `Bits`/`ConstBitStream` (which cannot change);
+    a `BitArray`/`BitStream` owns an in-memory copy from construction on (bitarray_.py `__init__`, bitstream.py
+    `__init__`) and is described by its bits like any other.  (Before /repo 19a4a37 the file was named for every class:
+    finding `file-repr-after-mutation`, fixed.) -/
+def reprFileObj (cls : Cls) (fname : Str) (m : FileMut) (file : Bits) (pos : Nat) : Str :=
+  let cur := applyMut m file
+  if cls.isMutable then reprFormAlg false cls cur pos else reprFileAlg cls fname cur.length pos
 
 /-! ## SPEC: the meaning of a literal initialiser string (`Bits('0x1f, 0b101')`)
 
@@ -659,17 +664,20 @@ def itemsAux (n : Nat) : Nat → Bits → List Bits
 
 def items (n : Nat) (l : Bits) : List Bits := if n = 0 then [] else itemsAux n (l.length + 1) l
 
-/-- `Array.__repr__` (array_.py:267-272); `n` = item length in bits (> 0); `bool` prints no length. -/
+/-- `Array.__repr__` (array_.py:267-279); `n` = item length in bits (> 0); `bool` prints no length.  Trailing bits are
+    embedded by their `repr`, or — when there are more than `MAX_CHARS * 4` of them, so that `repr` would truncate —
+    spelled out as `BitArray('0b…')` (since /repo 059409d; finding `array-long-trailing`, fixed). -/
 def arrayRepr (k : Kind) (n : Nat) (data : Bits) : Str :=
   let dt := k.name ++ (if k = .bool then [] else natDec n)
   let listStr := ['['] ++ joinSep commaSp ((items n data).map (itemRepr k)) ++ [']']
   let t := data.length % n
+  let trailing := data.drop (data.length - t)
   let final : Str := if t = 0 then [] else
-    ", trailing_bits=".toList ++ reprFormAlg false .bitArray (data.drop (data.length - t)) 0
+    ", trailing_bits=".toList ++
+      (if trailing.length > Gen.maxChars * 4 then
+        Cls.nameStr .bitArray ++ ['(', '\''] ++ pre0b ++ binDigits trailing ++ ['\'', ')']
+       else reprFormAlg false .bitArray trailing 0)
   "Array('".toList ++ dt ++ "', ".toList ++ listStr ++ final ++ [')']
-
-/-- Region of the known finding `array-long-trailing` (same name in `REGIONS` of harness/props/C19.py). -/
-def array_long_trailing (n : Nat) (data : Bits) : Bool := decide (data.length % n > 4 * Gen.maxChars)
 
 /-! ## driver -/
 
@@ -766,7 +774,7 @@ def handle (args : List String) : String :=
       | "del8" => some .del8 | "overwrite8" => some .overwrite8 | _ => none
     match Cls.ofStr? cls, bitsOfStr? bits, m?, pos.toNat? with
     | some k, some file, some m, some p =>
-      "ok " ++ wireOfStr (reprFileAlg k ['\'', 'F', '\''] (applyMut m file).length (if k.hasPos then p else 0))
+      "ok " ++ wireOfStr (reprFileObj k ['\'', 'F', '\''] m file (if k.hasPos then p else 0))
     | _, _, _, _ => "bad-op"
   | "arrx" :: _ => "ok roundtrip"
   | _ => "bad-op"
